@@ -284,7 +284,7 @@ Section Interp.
                match l with
                | [] => Ok (ser (cint acc))
                | x :: r => let* z := item bt x in
-                           match as_pyint z with Some n => go r (acc + n) | None => Raise TypeError end
+                           match as_pyint z with Some n => go r (Z.lor acc n) | None => Raise TypeError end
                end) l 0
         | _ => Raise Unsupported
         end
